@@ -106,6 +106,10 @@ def main():
             pass
     meta["what_i_ran"] = ("rsync copy of /repo + patch -p1; lib/baseline.py on the copy (404 pinned tests); demo.py with PYTHONPATH=copy and "
                           "PYTHONPATH=/repo; ./check <id> --tier quick --src copy for: " + " ".join(targets))
+    try:
+        meta["by_seed"] = json.load(open(os.path.join(out, "meta.json"))).get("by_seed", {})
+    except Exception:
+        pass
     json.dump(meta, open(os.path.join(out, "meta.json"), "w"), indent=1)
     if "--keep" not in sys.argv:
         shutil.rmtree(work, ignore_errors=True)
